@@ -21,6 +21,14 @@ CHECKS = {
             "bounded: histories <= 3 (quick) / 4 (thorough) steps over 13 request kinds, 4 scenarios instantiating the "
             "abstract keys; trusted: TLC, CPython",
             "TLA+ model (TLC exhaustive) + all TLC-enumerated request histories replayed into the real parser cache"),
+    "C09": ("model_checking",
+            "TreeValue.tla: reference value semantics (bits/bytes/text over the leaf sequence) and the implementation-shaped "
+            "value object (append / flush / views) folded subtree by subtree; TLC checks that they agree for every leaf "
+            "sequence, nesting and order of view requests within the bound; the TLC-written case table is replayed on real "
+            "DerivationTree objects in every request order, and values of really emitted binary trees are judged by TLC",
+            "bounded: <= 3 units over 10 leaf kinds (incl. an 8-bit group, non-ASCII text, empty text), 6 families of shapes, "
+            "request orders <= 3; nothing asserted for unaligned trees; int() pinned only for bit strings and digit text",
+            "TLA+ model (TLC exhaustive) + TLC-generated case table replayed into real trees + TLC judging recorded trees"),
 }
 
 NOT_YET = "check not built yet in this round (work in progress, see DESIGN.md section 8); not claimed"
